@@ -689,9 +689,31 @@ class Emitter:
 
     def trystmt(self, n):
         h = self.f.get('try_handler')
-        if not h:
+        if h:
+            return h(self, n)
+        if not self.spec.get('exceptions'):
             raise Unsupported('try statement (no exception lowering configured)')
-        return h(self, n)
+        # generic lowering for handlers that only log: the protected block runs with its own landing pad; a pending exception is
+        # swallowed there (that is what a logging-only handler does).  Any handler with an effect on verified state aborts the unit.
+        ks = self.kids(n)
+        body, handlers = ks[0], ks[1:]
+        for hd in handlers:
+            hb = [c for c in self.kids(hd) if c.get('kind') == 'CompoundStmt']
+            for st in (self.kids(hb[0]) if hb else []):
+                if not (self.is_log_stmt(st) or (st.get('kind') == 'IfStmt' and self.is_log_stmt(([{}] + [c for c in st.get('inner', []) if isinstance(c, dict)])[-1]))):
+                    raise Unsupported('catch handler with a non-logging statement')
+                self.check_droppable(st)
+        self.try_no = getattr(self, 'try_no', 0) + 1
+        lab = '__catch_%d' % self.try_no
+        if not hasattr(self, 'exc_stack') or self.exc_stack is None:
+            self.exc_stack = []
+        self.exc_stack.append(lab)
+        try:
+            inner = self.stmt(body)
+        finally:
+            self.exc_stack.pop()
+        self.rules['try_with_logging_handlers'] += 1
+        return inner + ['%s: __exc = 0; /* handlers of this try block only log: the exception is swallowed */' % lab]
 
     def rangefor(self, n):
         h = self.f.get('rangefor_handler')
@@ -1255,6 +1277,10 @@ class Emitter:
         pod = any(re.fullmatch(rx, cls) for rx in self.spec.get('pod', []))
         if pod:
             if len(args) == 0:
+                if any(re.fullmatch(rx, cls) for rx in self.spec.get('zero_default', [])):
+                    # classes whose default constructor yields the "empty" value the spec models as 0 (std::string as an id)
+                    self.rules['zero_default_ctor'] += 1
+                    return ['%s = %s;' % (target, '0' if not self._decl(cls, '').startswith('struct ') else '(%s){0}' % self._decl(cls, ''))]
                 if ce.get('zeroing') or ce.get('list'):
                     return ['%s = (%s){0};' % (target, self._decl(cls, ''))]
                 return []
